@@ -94,6 +94,10 @@ pub open spec fn chain_ok(r: TableRefresh, t: Timer<ScheduledTaskCheck>) -> bool
 pub open spec fn refresh_candidate(h: NodeHandle) -> bool {
     exists|n: Node| #[trigger] n.handle == h && spec_status(n) == NodeStatus::Questionable && !spec_recent(n)
 }
+/// C11: every ping of a refresh round is followed by the lookup of the pinged node's record (which, when found, is then marked: marks_ok)
+pub open spec fn pings_are_looked_up(o: Seq<Ev>, f: Seq<Ev>) -> bool {
+    forall|i: int| o.len() <= i < f.len() && #[trigger] f[i] is Send ==> i + 1 < f.len() && f[i + 1] is TableFind && f[i + 1]->TableFind_0.addr == f[i]->Send_1
+}
 /// a refresh query: find_node with an 8-byte transaction id carrying the refresh action's 5-byte prefix
 pub open spec fn refresh_query(m: Message, action: u64) -> bool {
     m.transaction_id@.len() == 8 && (m.body matches MessageBody::Request(Request::FindNode(_)))
@@ -136,12 +140,16 @@ impl TableRefresh {
             forall|k: Timeout| !(old(timer).pending@.contains_key(k) && old(timer).pending@[k] is TableRefresh) && k != final(self).next_refresh->0
                 ==> (final(timer).pending@.contains_key(k) == old(timer).pending@.contains_key(k) && (old(timer).pending@.contains_key(k) ==> final(timer).pending@[k] == old(timer).pending@[k])), // @C18.other_timeouts_untouched
             // a round sends at most 4 find_node queries (8-byte transaction ids of the refresh action) and nothing else
-            only_requests_and_yields(old(tr).ev, final(tr).ev), no_yield(old(tr).ev, final(tr).ev), final(tr).ev.len() <= old(tr).ev.len() + 8, // @C18.round_is_at_most_4_queries
+            only_requests_and_yields(old(tr).ev, final(tr).ev), no_yield(old(tr).ev, final(tr).ev), final(tr).ev.len() <= old(tr).ev.len() + 12, // @C18.round_is_at_most_4_queries
+            // C11: every ping is counted on the pinged node's record when the table (still) knows it -- the input of "two unanswered queries make a stale node bad"
+            pings_are_looked_up(old(tr).ev, final(tr).ev), // @C11.every_refresh_ping_is_counted_on_the_pinged_record
+            marks_ok(old(tr).ev, final(tr).ev, true), // @C11.every_refresh_ping_is_counted_on_the_pinged_record @C10.every_query_sent_is_recorded_on_the_queried_record
             forall|i: int| old(tr).ev.len() <= i < final(tr).ev.len() && #[trigger] final(tr).ev[i] is Send ==> refresh_query(final(tr).ev[i]->Send_0, old(self).id_generator.action_id), // @C19.refresh_queries_carry_8_byte_ids_of_the_refresh_action
             forall|i: int| old(tr).ev.len() <= i < final(tr).ev.len() && #[trigger] final(tr).ev[i] is Send ==> blen(final(tr).ev[i]->Send_0) <= 1500, // @C17.refresh_queries_fit_1500_bytes
     {
         proof { lemma_consts(); }
         let ghost ev0 = tr.ev;
+        proof { lemma_marks_refl(ev0, true); }
         if self.curr_refresh_bucket == table::MAX_BUCKETS {
             self.curr_refresh_bucket = 0;
         }
@@ -179,7 +187,9 @@ impl TableRefresh {
                 self.curr_refresh_bucket == old(self).curr_refresh_bucket || self.curr_refresh_bucket == 0, self.curr_refresh_bucket < 160,
                 self.next_refresh == old(self).next_refresh, self.id_generator.action_id == old(self).id_generator.action_id,
                 *timer == *old(timer),
-                only_requests_and_yields(ev0, tr.ev), no_yield(ev0, tr.ev), tr.ev.len() == ev0.len() + 2 * it.index@,
+                only_requests_and_yields(ev0, tr.ev), no_yield(ev0, tr.ev), tr.ev.len() <= ev0.len() + 3 * it.index@,
+                pings_are_looked_up(ev0, tr.ev), // @C11.every_refresh_ping_is_counted_on_the_pinged_record
+                marks_ok(ev0, tr.ev, true), // @C11.every_refresh_ping_is_counted_on_the_pinged_record @C10.every_query_sent_is_recorded_on_the_queried_record
                 forall|i: int| ev0.len() <= i < tr.ev.len() && #[trigger] tr.ev[i] is Send ==> refresh_query(tr.ev[i]->Send_0, old(self).id_generator.action_id),
                 forall|i: int| ev0.len() <= i < tr.ev.len() && #[trigger] tr.ev[i] is Send ==> blen(tr.ev[i]->Send_0) <= 1500, // @C17.refresh_queries_fit_1500_bytes
         {
@@ -202,12 +212,18 @@ impl TableRefresh {
             }
 
             // Send the message
+            let ghost evs = tr.ev;
             if let Err(error) = socket.send(&find_node_msg, node.addr, Tracked(tr)) {
             }
+            proof { lemma_marks_other(ev0, evs, Ev::Send(find_node_msg, node.addr), true); }
+            let ghost evf = tr.ev;
 
             // Mark that we requested from the node
             if let Some(node) = self.table.lock().unwrap().find_node_mut(&node, Tracked(tr)) {
-                node.local_request();
+                node.local_request(Tracked(tr));
+                proof { lemma_marks_hit(ev0, evf, node.handle, true); }
+            } else {
+                proof { lemma_marks_miss(ev0, evf, node, true); }
             }
         }
 
@@ -264,12 +280,17 @@ pub open spec fn req_sender(r: Request) -> NodeId {
 }
 /// the events of a served query: [mark the sender if it is a known live node, one message to the source]
 pub open spec fn is_query_reply(d: Seq<Ev>, message: Message, addr: SocketAddr, my_id: NodeId) -> bool {
-    d.len() == 2 && d[0] is TableFind && d[1] is Send && d[1]->Send_1 == addr
-    && d[1]->Send_0.transaction_id@ == message.transaction_id@
-    && !(d[1]->Send_0.body is Request)
-    && (d[1]->Send_0.body is Response ==> d[1]->Send_0.body->Response_0.id == my_id)
+    (d.len() == 2 || (d.len() == 3 && d[1] is Mark)) && d[0] is TableFind && d.last() is Send && d.last()->Send_1 == addr
+    && d.last()->Send_0.transaction_id@ == message.transaction_id@
+    && !(d.last()->Send_0.body is Request)
+    && (d.last()->Send_0.body is Response ==> d.last()->Send_0.body->Response_0.id == my_id)
 }
-pub open spec fn reply(d: Seq<Ev>) -> Message { d[1]->Send_0 }
+pub open spec fn reply(d: Seq<Ev>) -> Message { d.last()->Send_0 }
+/// C10 / C12: the sender's record is marked "this node queried us" exactly when it was found under the sender's (id, address) -- and nothing else is marked
+pub open spec fn query_marks_sender_only(d: Seq<Ev>) -> bool {
+    d.len() >= 2 && d[0] is TableFind && (d.len() == 3) == d[0]->TableFind_1 && (d.len() == 3 ==> d[1] == Ev::Mark(d[0]->TableFind_0, false))
+    && forall|i: int| 0 <= i < d.len() && #[trigger] d[i] is Mark ==> i == 1
+}
 pub open spec fn lists_per_want(v4: Seq<NodeHandle>, v6: Seq<NodeHandle>, want: Option<Want>, own_v4: bool) -> bool {
     let w = match want { Some(w) => w, None => if own_v4 { Want::V4 } else { Want::V6 } };
     v4.len() <= 8 && v6.len() <= 8
@@ -283,7 +304,7 @@ pub open spec fn nodes_per_want(r: Response, want: Option<Want>, own_v4: bool) -
 }
 
 impl DhtHandler {
-//@begin fn src/handler.rs impl:DhtHandler handle_incoming rules=R-deasync props=C05,C06,C07,C12,C01,C09
+//@begin fn src/handler.rs impl:DhtHandler handle_incoming rules=R-deasync props=C05,C06,C07,C12,C01,C09,C10
     pub fn handle_incoming(
         &mut self,
         message: Message,
@@ -298,7 +319,8 @@ impl DhtHandler {
             // ---- C05 / C12: a query produces exactly [mark the sender if known, one reply to the source]; nothing is added to the table
             !old(self).read_only && message.body is Request ==> is_query_reply(delta(old(tr).ev, final(tr).ev), message, addr, old(self).this_node_id), // @C05.exactly_one_reply_to_source_echoing_tid
             message.body is Request ==> no_table_add(old(tr).ev, final(tr).ev) && no_yield(old(tr).ev, final(tr).ev), // @C12.query_never_adds_sender
-            !old(self).read_only && message.body is Request ==> delta(old(tr).ev, final(tr).ev)[0] == Ev::TableFind(NodeHandle { id: req_sender(message.body->Request_0), addr }), // @C12.query_marks_only_its_known_sender
+            !old(self).read_only && message.body is Request ==> query_marks_sender_only(delta(old(tr).ev, final(tr).ev)), // @C10.a_received_query_is_recorded_on_its_known_sender_only @C12.a_query_marks_only_the_record_of_its_known_sender
+            !old(self).read_only && message.body is Request ==> delta(old(tr).ev, final(tr).ev)[0] is TableFind && delta(old(tr).ev, final(tr).ev)[0]->TableFind_0 == (NodeHandle { id: req_sender(message.body->Request_0), addr }), // @C12.query_marks_only_its_known_sender @C10.a_received_query_is_recorded_on_its_known_sender_only
             // ---- C05: ping / find_node replies carry no token and no values
             !old(self).read_only && (message.body matches MessageBody::Request(Request::Ping(_))) ==> ({
                 let r = reply(delta(old(tr).ev, final(tr).ev));
@@ -381,7 +403,7 @@ impl DhtHandler {
 
                 // Node requested from us, mark it in the Routingtable
                 if let Some(n) = self.routing_table.lock().unwrap().find_node_mut(&node, Tracked(tr)) {
-                    n.remote_request()
+                    n.remote_request(Tracked(tr))
                 }
 
                 let ping_rsp = Response {
@@ -403,7 +425,7 @@ impl DhtHandler {
 
                 // Node requested from us, mark it in the Routingtable
                 if let Some(n) = self.routing_table.lock().unwrap().find_node_mut(&node, Tracked(tr)) {
-                    n.remote_request()
+                    n.remote_request(Tracked(tr))
                 }
 
                 let (nodes_v4, nodes_v6) = self.find_closest_nodes(f.target, f.want)?;
@@ -429,7 +451,7 @@ impl DhtHandler {
 
                 // Node requested from us, mark it in the Routingtable
                 if let Some(n) = self.routing_table.lock().unwrap().find_node_mut(&node, Tracked(tr)) {
-                    n.remote_request()
+                    n.remote_request(Tracked(tr))
                 }
 
                 // TODO: Check what the maximum number of values we can give without overflowing a udp packet
@@ -482,7 +504,7 @@ impl DhtHandler {
 
                 // Node requested from us, mark it in the Routingtable
                 if let Some(n) = self.routing_table.lock().unwrap().find_node_mut(&node, Tracked(tr)) {
-                    n.remote_request()
+                    n.remote_request(Tracked(tr))
                 }
 
                 // Validate the token
@@ -819,7 +841,7 @@ impl DhtHandler {
             final(self).initial_bootstrap_done == old(self).initial_bootstrap_done, final(self).pending_lookups == old(self).pending_lookups,
             final(self).bootstrap_txs == old(self).bootstrap_txs, final(self).next_bootstrap_txs_id == old(self).next_bootstrap_txs_id,
             final(self).one_refresh_pending(), // @C18.next_round_scheduled_6s_ahead @C11.refresh_reschedules_itself_every_6_s
-            only_requests_and_yields(old(tr).ev, final(tr).ev), final(tr).ev.len() <= old(tr).ev.len() + 8, // @C18.round_is_at_most_4_queries
+            only_requests_and_yields(old(tr).ev, final(tr).ev), final(tr).ev.len() <= old(tr).ev.len() + 12, // @C18.round_is_at_most_4_queries
     {
         self.refresh
             .continue_refresh(&self.socket, &mut self.timer, Tracked(tr))
